@@ -636,6 +636,8 @@ impl TableNamespace {
 
     fn set_dirty(&mut self, transaction: &WriteTransaction) {
         transaction.dirty.store(true, Ordering::Release);
+        #[cfg(redb_verif)]
+        crate::sync::verif_pause("set_dirty");
         if !transaction.transaction_tracker.any_savepoint_exists() {
             // No savepoints exist, and we don't allow savepoints to be created in a dirty transaction
             // so we can disable allocation tracking now
@@ -1295,6 +1297,8 @@ impl WriteTransaction {
         };
         #[cfg(feature = "logging")]
         debug!("Creating savepoint id={id:?}, txn_id={transaction_id:?}");
+        #[cfg(redb_verif)]
+        crate::sync::verif_pause("ephemeral_savepoint:allocated");
 
         let root = self.mem.get_data_root();
         let savepoint = Savepoint::new_ephemeral(
@@ -1987,6 +1991,8 @@ impl WriteTransaction {
             .transaction_tracker
             .oldest_live_read_transaction()
             .map_or(self.transaction_id, |x| x.next());
+        #[cfg(redb_verif)]
+        crate::sync::verif_pause("durable_commit:horizon");
         self.process_freed_pages(free_until_transaction)?;
         // Flush allocated pages (including previously unpersisted allocations that are now
         // becoming durable) AFTER process_freed_pages, so that any pages reclaimed here have
@@ -2064,6 +2070,8 @@ impl WriteTransaction {
             self.two_phase_commit,
             self.shrink_policy,
         )?;
+        #[cfg(redb_verif)]
+        crate::sync::verif_pause("durable_commit:committed");
         // All of this transaction's allocations are durable; discard the per-txn tracker.
         let _ = page_allocator.take_allocated_since_commit();
 
@@ -2112,6 +2120,8 @@ impl WriteTransaction {
         if savepoint_horizon != u64::MAX {
             free_until = free_until.min(TransactionId::new(savepoint_horizon).next());
         }
+        #[cfg(redb_verif)]
+        crate::sync::verif_pause("epilogue:horizon");
 
         let mut freed_any = false;
         let (system_root, stored_system_freed_pages, extracted_data_transactions) = {
@@ -2184,6 +2194,8 @@ impl WriteTransaction {
             .transaction_tracker
             .oldest_live_read_nondurable_transaction()
             .map_or(self.transaction_id, |x| x.next());
+        #[cfg(redb_verif)]
+        crate::sync::verif_pause("non_durable_commit:horizon");
         self.process_freed_pages_nondurable(free_until_transaction)?;
 
         let mut post_commit_frees = vec![];
@@ -2628,6 +2640,8 @@ impl WriteTransaction {
 
 impl Drop for WriteTransaction {
     fn drop(&mut self) {
+        #[cfg(redb_verif)]
+        crate::sync::verif_pause("write_transaction_drop");
         if !self.completed && !crate::panicking() && !self.mem.storage_failure() {
             #[allow(unused_variables)]
             if let Err(error) = self.abort_inner() {
